@@ -126,8 +126,31 @@ def one_case(rec, rng, case_id):
         via = "NaniteFitModel.model"
     else:
         # the formulas are pointwise: any finite array, any order
-        out = md.module.model_func(x, **full)
         via = "model_func"
+        if rng.random() < .2:
+            # a direct call as a user would type it: contact point and
+            # baseline left at the defaults of the signature or given as
+            # plain integers (0 m, 0 N)
+            kws = dict(full)
+            how_i = int(rng.integers(3))
+            if how_i == 0:
+                kws.pop("baseline")
+                kws.pop("contact_point")
+            elif how_i == 1:
+                kws["baseline"] = 0
+                kws["contact_point"] = 0
+            else:
+                kws.pop("baseline")
+                kws["contact_point"] = full["contact_point"]
+            full = dict(full, baseline=0.0,
+                        contact_point=float(kws.get("contact_point", 0)))
+            case["params"] = full
+            case["call"] = ["defaults", "integers", "baseline default"][how_i]
+            rec.event("direct calls with default / integer contact point "
+                      "and baseline")
+            out = md.module.model_func(x, **kws)
+        else:
+            out = md.module.model_func(x, **full)
     incontact = int(np.sum(x < full["contact_point"]))
     rec.evaluated(dg=(mk, full, x), nontrivial=0 < incontact < x.size)
     rec.event("model evaluations via " + via)
